@@ -162,7 +162,8 @@ Definition all_ids (w : world) : list nat := flat_map (fun t => ids (forest_of t
 Record WFw (w : world) : Prop := {
   ww_trees : Forall WF (trees w);
   ww_disj  : NoDup (all_ids w);                               (* no node in two trees (or twice in one) *)
-  ww_next  : Forall (fun n => n < next w) (all_ids w)         (* the allocator is ahead of every node *)
+  ww_next  : Forall (fun n => n < next w) (all_ids w);        (* the allocator is ahead of every node *)
+  ww_pos   : 0 < next w                                       (* 0 is never allocated *)
 }.
 
 (* ---- checker ---- *)
@@ -177,7 +178,8 @@ Definition wf_b (t : tstate) : bool :=
   && su_b f.
 
 Definition wf_world_b (w : world) : bool :=
-  forallb wf_b (trees w) && nodupb Nat.eqb (all_ids w) && forallb (fun n => Nat.ltb n (next w)) (all_ids w).
+  forallb wf_b (trees w) && nodupb Nat.eqb (all_ids w) && forallb (fun n => Nat.ltb n (next w)) (all_ids w)
+  && Nat.ltb 0 (next w).
 
 Lemma NoDup_keys f : NoDup (ids f) -> NoDup (keys f).
 Proof. intros H. rewrite <- keys_fst in H. now apply NoDup_map_inv in H. Qed.
@@ -203,12 +205,13 @@ Qed.
 Theorem wf_world_b_WFw w : wf_world_b w = true <-> WFw w.
 Proof.
   unfold wf_world_b. rewrite !andb_true_iff, !forallb_forall, (nodupb_NoDup Nat.eqb Nat.eqb_eq). split.
-  - intros [[H1 H2] H3]. constructor; [|assumption|].
+  - intros [[[H1 H2] H3] H4]. constructor; [|assumption| |now apply Nat.ltb_lt].
     + apply Forall_forall. intros t Ht. apply wf_b_WF. now apply H1.
     + apply Forall_forall. intros n Hn. apply Nat.ltb_lt. now apply H3.
-  - intros [H1 H2 H3]. rewrite Forall_forall in H1, H3. refine (conj (conj _ H2) _).
+  - intros [H1 H2 H3 H4]. rewrite Forall_forall in H1, H3. refine (conj (conj (conj _ H2) _) _).
     + intros t Ht. apply wf_b_WF. now apply H1.
     + intros n Hn. apply Nat.ltb_lt. now apply H3.
+    + now apply Nat.ltb_lt.
 Qed.
 
 (* ------------------------------------------------------------------ *)
@@ -269,7 +272,7 @@ Proof.
 Qed.
 
 Lemma WFw_empty : WFw empty_world.
-Proof. constructor; cbn; constructor. Qed.
+Proof. constructor; cbn; try constructor. Qed.
 
 Lemma all_ids_app ts1 ts2 n :
   all_ids (W (ts1 ++ ts2) n) = all_ids (W ts1 n) ++ all_ids (W ts2 n).
@@ -277,8 +280,42 @@ Proof. unfold all_ids. cbn. apply flat_map_app. Qed.
 
 Lemma WFw_new_tree w ty c : WFw w -> WFw (snd (step w (ONewTree ty c))).
 Proof.
-  intros [H1 H2 H3]. cbn. constructor.
+  intros [H1 H2 H3 H4]. cbn. constructor; [| | |exact H4].
   - cbn. apply Forall_app. split; [assumption|]. constructor; [apply WF_empty|constructor].
   - unfold all_ids in *. cbn in *. rewrite flat_map_app. cbn. now rewrite app_nil_r.
   - unfold all_ids in *. cbn in *. rewrite flat_map_app. cbn. now rewrite app_nil_r.
+Qed.
+
+(* ------------------------------------------------------------------ *)
+(* conversely: the DESIGN.md 3.2 clauses (plus "0 is not a node") give WF, so [WF] is exactly
+   that formulation *)
+Lemma idx_flat_nodup : forall ix, NoDup (map fst ix) -> Forall (fun e => NoDup (snd e)) ix -> NoDup (idx_flat ix).
+Proof.
+  induction ix as [|[e l] ix IH]; intros K G; [constructor|]. cbn [map fst] in K.
+  inversion K as [|x xs Hx K' E]; subst. inversion G as [|y ys G1 G2]; subst. cbn [snd] in G1.
+  change (idx_flat ((e, l) :: ix)) with (map (fun n => (n, e)) l ++ idx_flat ix).
+  apply NoDup_app_intro; [|now apply IH|].
+  - clear -G1. induction G1 as [|n l Hn G1 IH]; [constructor|]. cbn. constructor; [|assumption].
+    intros X. apply in_map_iff in X. destruct X as (m & E & Hm). injection E as ->. contradiction.
+  - intros [n d] H1 H2. apply in_map_iff in H1. destruct H1 as (m & E & _). injection E as _ <-.
+    apply Hx. unfold idx_flat in H2. apply in_flat_map in H2. destruct H2 as (e' & He' & H2).
+    apply in_map_iff in H2. destruct H2 as (m' & E' & _). injection E' as _ <-. apply in_map_iff. now exists e'.
+Qed.
+
+Theorem WF_of_spelled t :
+  NoDup (ids (forest_of t)) -> ~ In 0 (ids (forest_of t)) ->
+  Permutation (reg t) (ids (forest_of t)) ->
+  NoDup (map fst (idx t)) ->
+  Forall (fun e => snd e <> [] /\ NoDup (snd e)) (idx t) ->
+  (forall n d, In n (idx_get d (idx t)) <-> In (n, d) (keys (forest_of t))) ->
+  sib_unique (forest_of t) ->
+  WF t.
+Proof.
+  intros H1 H2 H3 H4 H5 H6 H7. constructor; try assumption.
+  - eapply Forall_impl; [|exact H5]. cbn. intros e [X _]. exact X.
+  - apply NoDup_Permutation.
+    + apply idx_flat_nodup; [assumption|]. eapply Forall_impl; [|exact H5]. cbn. intros e [_ X]. exact X.
+    + now apply NoDup_keys.
+    + intros [n d]. rewrite <- (idx_get_flat _ d n H4). apply H6.
+  - now apply SU_sib_unique.
 Qed.
